@@ -210,6 +210,22 @@ def gather_files(rep, rng, tier, impl):
     for items, o in zip(sel, outs):
         if " dev=" in o:
             files.append(("writer-program", bytes.fromhex(o.split(" dev=")[1].strip())))
+    # (a2) images with one or two representations (visual reference and/or one projection), each with and
+    #      without a mask, between blobs and point clouds (the shapes of C19_copy_idempotent with images)
+    rng3 = core.Rng(rng.next())
+    img_lines = []
+    for kinds in ("v", "p", "s", "c", "vp", "vs", "vc"):
+        for masks in range(1 << len(kinds)):
+            it = ["I", kinds]
+            for k in range(len(kinds)):
+                it.append(bytes(rng3.below(256) for _ in range(rng3.range(0, 40))))
+                it.append(bytes(rng3.below(256) for _ in range(rng3.range(0, 9))) if (masks >> k) & 1 else None)
+            around = progs[rng3.below(len(progs))]
+            items = list(around[:1]) + [("B", b"\x07" * rng3.range(0, 5)), tuple(it)] + list(around[1:2])
+            img_lines.append("FW - " + " ".join(c01.item_tok(i) for i in items) + " DUMP")
+    for o in core.run_cases(impl, img_lines):
+        if " dev=" in o:
+            files.append(("writer-program-images", bytes.fromhex(o.split(" dev=")[1].strip())))
     # (b) rich metadata programs of the C04 generator, when that slice is present
     try:
         from props import c04
